@@ -61,6 +61,7 @@ type Result struct {
 	Extra        map[string]any    `json:"extra"`
 	Counters     map[string]int64  `json:"counters"`
 	HarnessErr   string            `json:"harness_err,omitempty"`
+	ViolCount    int64             `json:"viol_count"`
 	sigSeen      map[string]bool
 }
 
@@ -78,6 +79,9 @@ func (r *Result) AddViolation(v Violation) {
 		r.sigSeen = map[string]bool{}
 	}
 	r.Counters["viol:"+v.Signature]++
+	if !knownSig(r.Property, v.Signature) {
+		r.ViolCount++ // known findings do not prune the exploration below them
+	}
 	if r.sigSeen[v.Signature] {
 		return
 	}
@@ -250,6 +254,8 @@ type Explorer struct {
 	// ExpandFailed: also expand below transitions whose outcome is not "ok" (default false: a failed
 	// op must leave the digest unchanged, which is asserted, so there is nothing new below it).
 	ExpandFailed bool
+	// ExpandViolating: keep exploring below a transition that reported a violation (default false).
+	ExpandViolating bool
 	// FailedMustNotChange: report a violation if a failed op changed the digest.
 	FailedMustNotChange func(op string) (sig string, on bool)
 	deepest             []string
@@ -311,6 +317,7 @@ func (e *Explorer) visit(depth int, path []string, cur string) {
 		}
 		restore := e.W.Branch()
 		p := append(path, op.Name)
+		violBefore := e.Res.ViolCount
 		outcome := e.applyGuarded(op, p)
 		e.Res.Transitions++
 		e.Res.Outcomes[outcome]++
@@ -326,6 +333,12 @@ func (e *Explorer) visit(depth int, path []string, cur string) {
 			if e.Invariant != nil {
 				e.Invariant(e.W, p, e.Res)
 				e.Res.Evaluations++
+			}
+			if e.Res.ViolCount != violBefore && !e.ExpandViolating {
+				// the state disagrees with the reference model: everything below would only
+				// report consequences of the same breach
+				restore()
+				continue
 			}
 			if depth+1 > e.Res.MaxDepth {
 				e.Res.MaxDepth = depth + 1
@@ -445,4 +458,18 @@ func WriteWorkerResult(path string, r *Result) {
 	if err := os.WriteFile(path, bz, 0o644); err != nil {
 		panic(err)
 	}
+}
+
+var knownCache map[string]bool
+
+func knownSig(prop, sig string) bool {
+	if knownCache == nil {
+		knownCache = map[string]bool{}
+		for _, k := range LoadKnown() {
+			if k.Status == "known" {
+				knownCache[k.Property+"\x00"+k.Signature] = true
+			}
+		}
+	}
+	return knownCache[prop+"\x00"+sig]
 }
